@@ -26,3 +26,7 @@ chk('C07', MC, FAM + 'C07: workflows whose expressions fail at run time (omitted
     TRUST, 'failure-kind enumeration executed on the real engine in child processes + TLA+ trace validation (evaluation failure must be followed by an error Return)', 'DESIGN 5 C07')
 chk('C09', MC, FAM + 'C09: single-site stall sweep (every gate/hook point x step x occurrence, stall >= 80 ms > the detector retry budget) and random multi-site delays on workflows whose Meaning.tla result set is a singleton; the result must not change and the detector must not report "no more steps" while a step has unread input or a plugin executes.',
     TRUST + '; stall lengths are wall-clock sleeps at hook points', 'gate-driven schedule injection on the real engine judged by the TLC-computed meaning + TLA+ trace validation of detector verdicts', 'DESIGN 5 C09, 4.3')
+chk('C05', MC, 'SchemaProbe.tla: TLC enumerates all 16 fault vectors of the parse-time schema probe with the invariant "deployed => closed at return" and every vector is replayed on the real LoadSchema through scripted connection faults; ' + FAM + 'C05: at every Return event all run-phase connections are closed and no step/execution goroutine is alive (success, error, crash, deploy failure, cancellation at assorted points), plus a goroutine census after return.',
+    TRUST, 'TLC fault-vector enumeration replayed on the real code + TLA+ trace validation of resource bookkeeping at Return', 'DESIGN 5 C05')
+chk('C06', MC, FAM + 'C06: cancellation is triggered at every hook/gate point of every step (before deploy, during deploy, waiting for input, running, finishing); the monitor requires that every plugin with a cancel handler executing when its context ended was signalled, none executes at Return, the result is an error or a declared output whose dependencies were produced; the measured return time must stay below grace + sum of closure timeouts + margin.',
+    TRUST + '; the time bound uses wall-clock with a 2.5 s margin', 'gate-triggered cancellation sweep on the real engine + TLA+ trace validation', 'DESIGN 5 C06')
